@@ -111,6 +111,10 @@ class G:
         lab = "[%s]" % lab if lab else ""
         kind = self.rng.choice(["break", "continue", "continue", "break"])
         self.feat.add(kind + ("-labeled" if lab else ""))
+        if self.rng.random() < 0.3:
+            # `break v` / `continue v`: the operand is evaluated and dropped (or becomes the loop's value)
+            self.feat.add(kind + "-value")
+            lab = "%s %s" % (lab, self.iexpr(scope, 1))
         r = self.rng.random()
         if r < 0.5:
             return ["%s%s if %s" % (kind, lab, self.cond(scope))]
